@@ -38,6 +38,12 @@ def run(tier, seed, replay=None):
     states += rr["distinct"]
     trans += rr["states"]
     raws = rr["cases"]
+    # values spelled like numbers: every content `k = <s>` with s of <= 4 characters over the characters of
+    # inf / nan / exponents / signs / hex prefixes (the specification's ParseFloat against the real one)
+    rn = tlc.require_ok(tlc.run(env.tmpdir("tlc"), "MC_Toml", "Gen_TomlRawNum.cfg", ["toml"], workers=8, timeout=1800), "rawnum")
+    states += rn["distinct"]
+    trans += rn["states"]
+    raws = raws + rn["cases"]
 
     jobs, meta = [], {}
     n = 0
@@ -137,9 +143,9 @@ def run(tier, seed, replay=None):
         "raw_contents_where_spec_parser_and_code_disagree": len(model_raw_diff),
         "raw_disagreement_examples": model_raw_diff[:8],
         "evaluations": len(res), "distinct_nontrivial": len(nontriv) + len(raws),
-        "rule": "TLC enumerates tables over 22 value classes (2 sections x <=1 key, 1 section x <=2 keys; all 7 "
-                "sections x 2 classes in the thorough tier) and all contents of <=3 characters over 11 character "
-                "classes with 3 prefixes; each table is replayed with 6 trivia variants; distinct = distinct tables + "
+        "rule": "TLC enumerates tables over 32 value classes (10 of them strings spelled like numbers: inf, NaN, 1e5, 0x1p1, +7, .5, 1_0 ...) (2 sections x <=1 key, 1 section x <=2 keys; all 7 "
+                "sections x 2 classes in the thorough tier), all contents of <=3 characters over 11 character "
+                "classes with 3 prefixes and all values of <=4 characters over 13 number-spelling characters; each table is replayed with 6 trivia variants; distinct = distinct tables + "
                 "contents",
         "exhaustive": True,
     })
